@@ -48,7 +48,11 @@ func run(c *vf.Ctx) {
 		"non-trivial = distinct (length, header set, type) with length>=1; B: for 8 body lengths every bit of the 5-character CRC line and every " +
 		"radix-64 character x {2 other alphabet characters, 8 bit flips}; C: every text of <=3 lines over line starts x trailing whitespace {none,' ','\\t',' \\t'} " +
 		"x EOL {LF, CRLF, none at the end}, non-trivial = distinct texts; oracles: reference armor codec + CRC-24, RFC 4880 7.1 canonicalisation, " +
-		"reference v4 signature verification, gpg 2.2 when present")
+		"reference v4 signature verification, gpg 2.2 when present; " +
+		"hardening dimensions: (A) every Write to armor.Encode / clearsign.Encode gets a private copy that is overwritten when Write returns, the header map is a copy modified after Encode returned, clearsign.Decode must not write to its input, read buffers hold old bytes before and are overwritten after every Read; " +
+		"(C) armor bodies of 2^k+{-1,0,1,47,48,49} octets for k=12,16,20 (thorough 22) written whole / in 65537- / in 4093-octet pieces, read with ReadAll / 4096 / 57, byte-for-byte against the reference encoder, plus one flipped character mid-body; clearsign texts with lines and blank runs of 4095/4096/4097/65537 octets, 400-5000 lines; " +
+		"(D) armor.Decode behind 4 kinds of leading lines (garbage, a 150-character line, an abandoned block with a header, a bare BEGIN), clearsign.Decode of every message embedded between other text, text written whole / octet-wise / in two pieces cut at a moving position, Read after EOF; " +
+		"(E) empty Writes around the body and no Write at all, lengths 190..194, 766..770 (one base64 encoder buffer), 1534..1538")
 	c.Assume("crypto/* of the standard library (hashes, rsa, dsa, ecdsa) is correct; header keys without \": \" and values without leading/trailing whitespace or line breaks; GnuPG is an additional oracle only")
 
 	g, why := pgpfix.NewGPG("c46")
